@@ -207,7 +207,7 @@ def plan_C18(tier, seed):
     return dict(level="exploration",
                 rule=("one evaluation = one capacity case (constructor with capacity c, then requests of multiples of MIN_ALIGN totalling c under 5 strategies, watched by the allocator ledger), one random history with chunk_capacity probes, "
                       "one growth case (volume x size distribution x initial capacity) or one Vec/String capacity/growth case; distinct = distinct parameter tuples"),
-                shards=shards, require={"c18.capacity_cases": 5000, "c18.capacity_probes": 1000, "c18.growth_cases": 100, "c18.vec_capacity_cases": 500, "c18.vec_growth_cases": 50, "c18.limit_edge_acquisitions_compared": 5000, "c18.every_way_growth_cases": 100},
+                shards=shards, require={"c18.capacity_cases": 5000, "c18.capacity_probes": 1000, "c18.growth_cases": 100, "c18.vec_capacity_cases": 500, "c18.vec_growth_cases": 50, "c18.limit_edge_acquisitions_compared": 5000, "c18.every_way_growth_cases": 100, "c18.capped_growth_cases": 50},
                 assumptions=ASSUME_COMMON + ["the asymptotic clauses are restated as explicit bounds: chunks <= 3+log2(occupied/64)+#requests larger than the current chunk; Vec moves <= 3+log2(n); held <= 6*max(occupied,capacity)+4*max_align+16KiB (arena), 24*occupied+16KiB (Vec with neighbours); new chunk never smaller than its predecessor in fault-free, limit-free, reset-free runs"])
 
 
@@ -337,7 +337,7 @@ def plan_C16(tier, seed):
     return dict(level="fault_enumeration",
                 rule=("one evaluation = one (operation scenario, input, panic point k, follow-up) tuple: for each of 38 callback-taking scenarios and each input the fault-free run counts the n callback invocations, "
                       "then every k in 1..=n is run with the k-th invocation panicking, under three follow-ups (continue using, drop, consume); distinct = distinct such tuples"),
-                shards=shards, require={"c16.panics_injected": 5000, "c16.callback_points_enumerated": 1500, "sc.string-retain": 7, "sc.drain_filter-consume-all": 6, "sc.splice-exact-hint": 6},
+                shards=shards, require={"c16.panics_injected": 5000, "c16.callback_points_enumerated": 1500, "sc.string-retain": 7, "sc.drain_filter-consume-all": 6, "sc.splice-exact-hint": 6, "c16.kept_blocks_checked": 100},
                 assumptions=ASSUME_COLL + ["the fuse fires once per run, so a second panic during unwinding (abort) can only be raised by the code under test; a shard dying with SIGABRT is reported as a violation"])
 
 
